@@ -9,7 +9,7 @@ import collections
 import importlib
 import re
 
-PROP_GROUPS = {'C11': ['join'], 'C02': ['join'], 'C10': ['matcher'], 'C14': ['handlers', 'vloop'], 'C17': ['rows']}
+PROP_GROUPS = {'C11': ['join'], 'C02': ['join'], 'C10': ['matcher'], 'C14': ['handlers', 'vloop'], 'C17': ['rows'], 'C13': ['load']}
 
 
 # ---------------------------------------------------------------- encoding
@@ -356,7 +356,35 @@ def run_vloop(ctx, b, n):
     b.flush()
 
 
-RUNNERS = {'vloop': run_vloop, 'join': run_join, 'matcher': run_matcher, 'handlers': run_handlers, 'rows': run_rows}
+def run_load(ctx, b, n):
+    """`load.limiter` over finite producers and producers that fail when asked for one row too many"""
+    L = importlib.import_module('dataflows.processors.load')
+    rng = ctx.rng('pycorr-load')
+
+    class Boom(Exception):
+        pass
+
+    class FakeSelf:
+        pass
+    for _ in range(n):
+        rows = [{'a': i} for i in range(rng.randint(0, 6))]
+        limit = rng.choice([-2, 0, 1, 2, 3, len(rows), len(rows) + 1, 9])
+        failing = rng.random() < 0.6
+
+        def producer(rows=rows, failing=failing):
+            for r in rows:
+                yield r
+            if failing:
+                raise Boom()
+        me = FakeSelf()
+        me.limit_rows = limit
+        real = real_call(lambda: list(L.load.limiter(me, producer())))
+        it = {'__iter__': rows, '__raise_after__': 'Boom'} if failing else rows
+        b.add('load_limiter', [None, it, limit], real, case=[len(rows), limit, failing])
+    b.flush()
+
+
+RUNNERS = {'load': run_load, 'vloop': run_vloop, 'join': run_join, 'matcher': run_matcher, 'handlers': run_handlers, 'rows': run_rows}
 
 
 def run(ctx, groups=None, n=None):
